@@ -209,6 +209,11 @@ func (in *Interp) Eval(e *lang.Expr, env *Env) (Value, error) {
 		if me.CheckInside && (len(args) < me.Min || len(args) > me.Max) {
 			return nil, Errf("wrong number of arguments at call of %s", e.S)
 		}
+		for _, a := range args {
+			if l, isList := a.(*List); isList && l.Unordered && len(l.Items) > 1 {
+				in.OrderLeak = true // a list argument (cross, merge ...) whose order is unspecified
+			}
+		}
 		return me.Fn(in, recv, args)
 	case lang.KIf:
 		c, err := in.Eval(e.X[0], env)
